@@ -119,6 +119,12 @@ static void case_chol(int n, int band, int seed) {
     BandMat<Real, int, Exc> F = B; F.cholDec(); V x = u; F.solve(x); for (int i = 1; i <= n; i++) sx::check_eq(x(i), Ciu[i - 1], "BandMat cholDec+solve, component " + std::to_string(i));
     BandMat<Real, int, Exc> Z; F.invBand(Z); const BandMat<Real, int, Exc>& cz = Z;
     for (int i = 1; i <= n; i++) for (int j = i; j <= std::min(n, i + band); j++) sx::check_eq(cz(i, j), sx::constant(Ci(i - 1, j - 1)), "BandMat invBand inside the band " + ij(i, j));
+    // the documented use with a wider result band, and a narrower request (taken as the band of the matrix)
+    for (int extra = 1; extra <= 2 && band + extra <= n - 1; extra++) { BandMat<Real, int, Exc> W; F.invBand(W, band + extra); const BandMat<Real, int, Exc>& cw = W;
+      sx::check_true(cw.dim() == n && cw.bandWidth() == band + extra, "BandMat invBand(Z, band+" + std::to_string(extra) + ") dimensions", "");
+      if (cw.dim() == n && cw.bandWidth() == band + extra) for (int i = 1; i <= n; i++) for (int j = i; j <= std::min(n, i + band + extra); j++) sx::check_eq(cw(i, j), sx::constant(Ci(i - 1, j - 1)), "BandMat invBand with a band widened by " + std::to_string(extra) + " " + ij(i, j)); }
+    if (band > 0) { BandMat<Real, int, Exc> W; F.invBand(W, band - 1); const BandMat<Real, int, Exc>& cw = W; sx::check_true(cw.bandWidth() == band, "BandMat invBand with a narrower request keeps the band of the matrix", "");
+      if (cw.bandWidth() == band) for (int i = 1; i <= n; i++) for (int j = i; j <= std::min(n, i + band); j++) sx::check_eq(cw(i, j), sx::constant(Ci(i - 1, j - 1)), "BandMat invBand with a narrower request " + ij(i, j)); }
   }
   sx::note("matrix", qla::show(C));
   sx::reached("mat-chol");
@@ -233,6 +239,11 @@ static void case_sparse(const Skel& sk, int covkind) {
     sx::check_true(cnt == (long)ent.size() && X.nonzeroes() == (int)ent.size(), what + " number of entries", "");
   };
   std::map<std::pair<int,int>, Real> dr, dt, dtt; dense(*R, dr, false, "replicate"); dense(*T, dt, true, "transpose"); dense(*TT, dtt, false, "transpose of transpose");
+  // operations on a matrix that is itself the result of an operation: copy of the transposed matrix, its transpose, copy of the copy
+  { std::unique_ptr<SparseMatrix<Real, int>> RT(T->replicate()), RTT(RT->transpose()), RR(R->replicate()); std::map<std::pair<int,int>, Real> d1, d2, d3;
+    sx::check_true(RT->rows() == n && RT->columns() == m && RTT->rows() == m && RTT->columns() == n && RR->rows() == m && RR->columns() == n, "shapes of copies of results", "");
+    dense(*RT, d1, true, "replicate of transpose"); dense(*RTT, d2, false, "transpose of replicate of transpose"); dense(*RR, d3, false, "replicate of replicate");
+    for (auto& kv : ent) for (auto* d : {&d1, &d2, &d3}) { auto it = d->find(kv.first); sx::check_true(it != d->end(), "entry present in a copy of a result " + ij(kv.first.first, kv.first.second), ""); if (it != d->end()) sx::check_eq(it->second, kv.second, "entry value in a copy of a result " + ij(kv.first.first, kv.first.second)); } }
   sx::check_true(T->rows() == n && T->columns() == m && R->rows() == m && R->columns() == n, "shapes", "");
   for (auto& kv : ent) { for (auto* d : {&dr, &dt, &dtt}) { auto it = d->find(kv.first); sx::check_true(it != d->end(), "entry present " + ij(kv.first.first, kv.first.second), ""); if (it != d->end()) sx::check_eq(it->second, kv.second, "entry value " + ij(kv.first.first, kv.first.second)); } }
   // ordering and connectivity on the real graph of the pattern
